@@ -16,7 +16,7 @@ import (
 // question some client really asked, and the recycling request is forwarded exactly once.
 func VerifH_C20_PrefetchOutlivesRequest() {
 	verifrt.Unwind(400)
-	verifrt.SchedBound(1)
+	verifrt.SchedBound(1 + verifrt.Tier) // thorough: one more deviation from the default schedule
 	verifrt.CtxNoExpiry = true
 	up := &vKeyedUpstream{}
 	r := vRouter([]*rule{{upstream: &upstreamWrapper{tag: "up", u: up}}}, true)
@@ -55,7 +55,7 @@ func VerifH_C20_PrefetchOutlivesRequest() {
 // asked), the repeats are served from the cache, and the upstream was only ever asked questions that clients asked.
 func VerifH_C07_RefreshFiledUnderOwnQuestion() {
 	verifrt.Unwind(400)
-	verifrt.SchedBound(1)
+	verifrt.SchedBound(1 + verifrt.Tier) // thorough: one more deviation from the default schedule
 	verifrt.CtxNoExpiry = true
 	base := time.Unix(1700000000, 0)
 	offset := time.Duration(0)
@@ -105,7 +105,7 @@ func VerifH_C07_RefreshFiledUnderOwnQuestion() {
 // the history requires, and every response carries the answer for its own question.
 func VerifH_C10_RefreshReachesOnlyItsUpstream() {
 	verifrt.Unwind(400)
-	verifrt.SchedBound(1)
+	verifrt.SchedBound(1 + verifrt.Tier) // thorough: one more deviation from the default schedule
 	verifrt.CtxNoExpiry = true
 	base := time.Unix(1700000000, 0)
 	offset := time.Duration(0)
